@@ -19977,6 +19977,13 @@ impl<
 						);
 					}
 					for (source, hash, cp_id, chan_id) in shutdown_result.dropped_outbound_htlcs {
+						if monitor.get_all_current_outbound_htlcs().contains_key(&source) {
+							// The (newer) `ChannelMonitor` knows about this HTLC, i.e. it was committed
+							// after this (stale) `ChannelManager` was written. It is still pending with
+							// our counterparty and will be resolved via the `ChannelMonitor`, so we must
+							// not fail it backwards here.
+							continue;
+						}
 						let reason = LocalHTLCFailureReason::ChannelClosed;
 						failed_htlcs.push((source, hash, cp_id, chan_id, reason, None));
 					}
